@@ -1,6 +1,7 @@
 import VelaVerif.Lemmas.MlwDecode
 import VelaVerif.Lemmas.MlwFrame
 import VelaVerif.Lemmas.Reorder
+import VelaVerif.Lemmas.ReorderLength
 import VelaVerif.Lemmas.MlwSpec
 import VelaVerif.Gen.Core
 import VelaVerif.Gen.Mlw
@@ -12,8 +13,8 @@ Property theorems only.  Models: `Model/MlwDecode.lean` (reference stream decode
 Spec: `Spec/Mlw.lean`; helpers: `Lemmas/{MlwDecode,MlwFrame,Reorder,MlwSpec}.lean`.
 
 Level: translation validation + proved parts.  What is proved here: the decoder is total and never
-over-reads silently, the stream end rule yields a multiple of 16 bytes, the depth-first traversal is a
-bijection onto the volume plus zero padding for every valid configuration, the Spec checker used by
+over-reads silently, the stream end rule yields a multiple of 16 bytes, every traversal (depth-first,
+part-kernel-first, depthwise) is a bijection onto the volume plus zero padding for every valid configuration, the Spec checker used by
 `harness/check_C07.py` decides the Spec.  The encoder itself (palette search, GRC parameter
 search, chunk interleaving) is validated per run, not proved.
 -/
@@ -75,6 +76,31 @@ example : (decode [17, 0, 96, 33, 164, 39, 6, 224, 13, 218, 255, 255, 255, 255, 
 example : (match decode [6, 0, 64, 21] with | .error e => some e | .ok _ => none) = some DecErr.underrun := by
   decide +kernel
 
+/-! ## header fields (what the encoder writes is what the decoder reads) -/
+
+/-- `header_roundtrip`: the slice header fields `encode_slice` writes after ZDIV (SLICELEN − 1 in 15 bits,
+    WDIV, WTRUNC, NEWPAL) are read back unchanged by the decoder, which consumes exactly those 20 bits. -/
+theorem header_roundtrip (nvalues wdiv : Nat) (trunc newPal : Bool) (rest : List Bool) (pos : Nat)
+    (hn1 : 1 ≤ nvalues) (hn2 : nvalues ≤ 32768) (hw : wdiv < 8) :
+    readSliceHeader ⟨putSliceHeader nvalues wdiv trunc newPal ++ rest, pos⟩ =
+      .ok ((nvalues, wdiv, trunc, newPal), ⟨rest, pos + 20⟩) :=
+  header_roundtrip' nvalues wdiv trunc newPal rest pos hn1 hn2 hw
+
+/-- `palette_roundtrip`: the palette section (DIROFS, PALSIZE − 1, PALBITS − 2, entries) of a palette
+    with 0 or 2..32 entries of 2..9 bits is read back unchanged; a palette of one entry cannot be
+    expressed (the encoder pads it to two). -/
+theorem palette_roundtrip (dirofs palbits : Nat) (lut : List Nat) (rest : List Bool) (pos : Nat)
+    (hd : dirofs < 32) (hl : lut.length = 0 ∨ (2 ≤ lut.length ∧ lut.length ≤ 32))
+    (hb1 : 2 ≤ palbits) (hb2 : palbits ≤ 9) (hv : ∀ v ∈ lut, v < 2 ^ palbits) :
+    readPalette ⟨putPaletteHeader dirofs palbits lut ++ rest, pos⟩ =
+      .ok ({ directOffset := dirofs, palsize := lut.length, palbits := palbits, palette := lut },
+           ⟨rest, pos + 13 + lut.length * palbits⟩) :=
+  palette_roundtrip' dirofs palbits lut rest pos hd hl hb1 hb2 hv
+
+/-- a field wider than its value is not needed: the low `n` bits are what survives (`bitbuf_put` masks) -/
+theorem field_roundtrip (n v : Nat) (rest : List Bool) :
+    takeBits n (putBits n v ++ rest) = some (v % 2 ^ n, rest) := takeBits_putBits n v rest
+
 /-! ## the end of a stream -/
 
 /-- `frame_multiple_of_16`: wherever the last slice ends, the end-of-stream marker, the byte
@@ -92,72 +118,81 @@ example : (frameBits 37).length = 91 ∧ frameBytes 37 = 16 := by decide
 
 /-! ## the hardware traversal order -/
 
-/-
-Full statement (`reorder_covers`): for depth-first, part-kernel-first and depthwise traversal, any
-block depths that are whole numbers of micro-blocks and any decomposition sizes, every in-range
-source coordinate is emitted exactly once and every other emitted value is padding.
-
-Proved below for the depth-first, non-depthwise traversal (`ValidDepthFirst`), for *every* volume
-shape, OFM block depth, micro-block depth and decomposition size (so for every dilation).  Missing:
-the same peeling argument for the two other traversals (outer IFM micro-block loop active and the
-kernel-element count rounded up to 4 or 2 for part-kernel-first; single IFM element and rounding to 4
-for depthwise).  They are enumerated exhaustively on small scopes by `harness/check_C07.py`
-(`reordercovers`, decided by `MlwSpec.covers`, which `covers_decides` ties to `Covers`).
--/
-
-/-- `reorder_covers_partial`: the depth-first traversal is a bijection onto the volume plus padding. -/
-theorem reorder_covers_partial (p : Params) (v : ValidDepthFirst p) :
+/-- `reorder_covers`: for depth-first, part-kernel-first and depthwise traversal, any volume shape, any
+    block depths that are whole numbers of micro-blocks and any decomposition sizes (hence any
+    dilation), every in-range source coordinate `(ofm_z, wy, wx, ifm_z)` is emitted exactly once and
+    every other emitted value is padding: the traversal is a bijection onto the volume plus zeros. -/
+theorem reorder_covers (p : Params) (v : ValidConfig p) :
     reorder p = some (traverse p) ∧ Covers p (traverse p) := by
-  refine ⟨?_, fun c hc => count_traverse_df v hc, fun c hc => traverse_sound_df v hc⟩
+  refine ⟨?_, fun c hc => count_traverse v hc, fun c hc => traverse_sound v hc⟩
   unfold reorder Params.stepsPositive
   simp [v.iuPos, v.ouPos, v.obdPos, v.dhPos, v.dwPos]
 
-/-- consequently the reordered value stream is the source volume permuted with zeros inserted:
-    each source element is read exactly once and nothing else is read -/
-theorem reorder_reads_each_weight_once_partial (p : Params) (v : ValidDepthFirst p) (c : Coord) :
+/-- consequently the reordered stream is the source volume permuted with zeros inserted: each source
+    element is read exactly once and nothing outside the volume is read -/
+theorem reorder_reads_each_weight_once (p : Params) (v : ValidConfig p) (c : Coord) :
     (p.inRange c = true → (traverse p).count (some c) = 1) ∧
     (p.inRange c = false → (traverse p).count (some c) = 0) := by
-  refine ⟨fun h => count_traverse_df v h, fun h => ?_⟩
+  refine ⟨fun h => count_traverse v h, fun h => ?_⟩
   rw [List.count_eq_zero]
   intro hm
-  rw [traverse_sound_df v hm] at h
+  rw [traverse_sound v hm] at h
   cases h
 
-/-- the executable small-scope checker used for the other traversals decides `Covers` -/
+/-- `reorder_length`: the number of values handed to the entropy coder (`padded_length`), all traversals:
+    OFM depth padded to micro-blocks × kernel elements after decomposition and padding × IFM factor
+    (1 for depthwise, IFM depth padded to micro-blocks for part-kernel-first, to the 16/32 block for depth-first). -/
+theorem reorder_length (p : Params) (v : ValidConfig p) : (traverse p).length = paddedLength p :=
+  length_traverse v
+
+/-- depth-first: `round_up(ofm_depth, ofm_ublock) · kh · kw · round_up(ifm_depth, 16 or 32)` -/
+theorem reorder_length_depth_first (p : Params) (v : ValidConfig p) (hdw : p.isDepthwise = false)
+    (hpk : p.isPartkernel = false) :
+    (traverse p).length = roundUp p.ofmDepth p.ofmUblockDepth * (p.kh * p.kw) * roundUp p.ifmDepth p.ifmBlockDepth := by
+  rw [length_traverse v, kernelElems_df v hdw hpk]
+  simp [ifmFactor, hdw, hpk]
+
+/-- the padding is exactly the length beyond the volume: `length = volume + number of padding zeros` -/
+example : paddedLength { ifmUblockDepth := 8, ofmUblockDepth := 8, ofmDepth := 5, kh := 3, kw := 3, ifmDepth := 20,
+                         ofmBlockDepth := 16, isDepthwise := false, isPartkernel := true, ifmBitdepth := 8,
+                         decompH := 4, decompW := 4 } = 8 * 12 * 24 := by decide
+
+/-- the executable checker the harness enumerates small scopes with (`reordercovers`) decides `Covers` -/
 theorem covers_decides (p : Params) (cs : List (Option Coord)) : covers p cs = true ↔ Covers p cs :=
   covers_iff p cs
 
-/-- The parameters `weight_compressor.encode_weights` derives for a depth-first convolution on
-    any of the accelerators of the regenerated table, any IFM bit depth, dilation 1 or 2 and an OFM
-    block depth that is a whole number of OFM micro-blocks satisfy `ValidDepthFirst`. -/
+/-- The parameters `weight_compressor.encode_weights` derives for any traversal on any of the
+    accelerators of the regenerated table, any IFM bit depth, dilation 1 or 2 and an OFM block depth
+    that is a whole number of OFM micro-blocks form a `ValidConfig` (a depthwise volume has `ifm_depth = 1`). -/
 theorem accelerator_params_valid (a : Gen.AccRow) (ha : a ∈ Gen.accelerators)
-    (od kh kw id_ k bits dilX dilY : Nat) (hk : 0 < k) (hx : dilX = 1 ∨ dilX = 2) (hy : dilY = 1 ∨ dilY = 2) :
-    ValidDepthFirst { ifmUblockDepth := a.ifmUblock.depth, ofmUblockDepth := a.ofmUblock.depth, ofmDepth := od,
-                      kh := kh, kw := kw, ifmDepth := id_, ofmBlockDepth := k * a.ofmUblock.depth,
-                      isDepthwise := false, isPartkernel := false, ifmBitdepth := bits,
-                      decompH := Gen.Mlw.subKernelMaxH / dilY, decompW := Gen.Mlw.subKernelMaxW / dilX } := by
+    (od kh kw id_ k bits dilX dilY : Nat) (dw pk : Bool) (hk : 0 < k) (hx : dilX = 1 ∨ dilX = 2)
+    (hy : dilY = 1 ∨ dilY = 2) (hdw : dw = true → id_ = 1) :
+    ValidConfig { ifmUblockDepth := a.ifmUblock.depth, ofmUblockDepth := a.ofmUblock.depth, ofmDepth := od,
+                  kh := kh, kw := kw, ifmDepth := id_, ofmBlockDepth := k * a.ofmUblock.depth,
+                  isDepthwise := dw, isPartkernel := pk, ifmBitdepth := bits,
+                  decompH := Gen.Mlw.subKernelMaxH / dilY, decompW := Gen.Mlw.subKernelMaxW / dilX } := by
   have table : ∀ a ∈ Gen.accelerators, 0 < a.ifmUblock.depth ∧ 0 < a.ofmUblock.depth ∧
       a.ifmUblock.depth ∣ ifmBlockDepthSmall ∧ a.ifmUblock.depth ∣ ifmBlockDepthLarge := by decide
   obtain ⟨h1, h2, h3, h4⟩ := table a ha
   have hdec : ∀ d, d = 1 ∨ d = 2 → 0 < Gen.Mlw.subKernelMaxH / d ∧ 0 < Gen.Mlw.subKernelMaxW / d := by
     rintro d (rfl | rfl) <;> decide
-  refine { notDepthwise := rfl, notPartkernel := rfl, iuPos := h1, ouPos := h2,
-           obdPos := Nat.mul_pos hk h2, dhPos := (hdec dilY hy).1, dwPos := (hdec dilX hx).2,
-           ouDvd := Nat.dvd_mul_left _ _, iuDvd := ?_ }
+  refine { iuPos := h1, ouPos := h2, obdPos := Nat.mul_pos hk h2, dhPos := (hdec dilY hy).1,
+           dwPos := (hdec dilX hx).2, ouDvd := Nat.dvd_mul_left _ _, iuDvd := ?_, depthwiseIfm := hdw }
   show a.ifmUblock.depth ∣ Params.ifmBlockDepth _
   unfold Params.ifmBlockDepth
   split
   · exact h3
   · exact h4
 
-/-- non-vacuity: a 3×3 kernel, 5 output and 20 input channels on an 8/8 micro-block machine -/
+/-- non-vacuity: a part-kernel-first 3×3 kernel, 5 output and 20 input channels on an 8/8 micro-block
+    machine with dilation 2 (decomposition 4×4) -/
 example : Covers { ifmUblockDepth := 8, ofmUblockDepth := 8, ofmDepth := 5, kh := 3, kw := 3, ifmDepth := 20,
-                   ofmBlockDepth := 16, isDepthwise := false, isPartkernel := false, ifmBitdepth := 8,
-                   decompH := 8, decompW := 8 }
+                   ofmBlockDepth := 16, isDepthwise := false, isPartkernel := true, ifmBitdepth := 8,
+                   decompH := 4, decompW := 4 }
     (traverse { ifmUblockDepth := 8, ofmUblockDepth := 8, ofmDepth := 5, kh := 3, kw := 3, ifmDepth := 20,
-                ofmBlockDepth := 16, isDepthwise := false, isPartkernel := false, ifmBitdepth := 8,
-                decompH := 8, decompW := 8 }) :=
-  (reorder_covers_partial _ ⟨rfl, rfl, by decide, by decide, by decide, by decide, by decide, ⟨2, rfl⟩, ⟨4, rfl⟩⟩).2
+                ofmBlockDepth := 16, isDepthwise := false, isPartkernel := true, ifmBitdepth := 8,
+                decompH := 4, decompW := 4 }) :=
+  (reorder_covers _ ⟨by decide, by decide, by decide, by decide, by decide, ⟨2, rfl⟩, ⟨2, rfl⟩, by decide⟩).2
 
 /-- the hypothesis on the block depth is needed: with an OFM block depth that is not a whole number
     of micro-blocks, channels of the next block are emitted twice -/
